@@ -125,7 +125,7 @@ def regen():
     return changed
 
 
-GEN_FILES = [("dump-const", "ConstGen.v")]
+GEN_FILES = [("dump-const", "ConstGen.v"), ("dump-air", "AirGen.v")]
 
 
 def coq_makefile():
